@@ -478,8 +478,10 @@ theorem Inv.step_pubSwapTable {c : Nat} (h : Inv n0 nthreads stride s)
   simp only [step, hl, hpc] at hs
   injection hs with hs; subst hs
   refine h.upd' hl rfl rfl ?_ ?_ ?_ ?_ ?_ ?_ ?_ ?_ ?_ ?_
-  · simp only [setT]; rw [h.n_eq, Nat.pow_succ]; simp [Nat.mul_comm, Nat.mul_left_comm]
-  · simp only [setT, h.pub_eq, bumpPublished]
+  · show 2 * s.n = n0 * 2 ^ (s.gen + 1)
+    rw [h.n_eq, Nat.pow_succ]; simp [Nat.mul_comm, Nat.mul_left_comm]
+  · show bumpPublished s.published s.gen = List.replicate (s.gen + 1) 1
+    simp only [h.pub_eq, bumpPublished]
     simp [List.replicate_succ']
   · simp
   · simp
